@@ -20,6 +20,7 @@ pub struct EnvEngine {
     pub prop: EnvProp,
     e05_quick: gen::Enum05,
     e05_thorough: gen::Enum05,
+    e05_prog: gen::Enum05,
     e08_has: gen::Enum08Has,
     e08_co: gen::Enum08Coalesce,
 }
@@ -34,6 +35,7 @@ impl EnvEngine {
             prop,
             e05_quick: gen::Enum05::new(2, &gen::ATOMS9),
             e05_thorough: gen::Enum05::new(3, &gen::ATOMS4),
+            e05_prog: gen::Enum05::new(2, &gen::ATOMS_PROG),
             e08_has: gen::Enum08Has::new(),
             e08_co: gen::Enum08Coalesce::new(),
         }
@@ -54,10 +56,14 @@ impl EnvEngine {
         let (en, _) = self.plan(thorough);
         match self.prop {
             EnvProp::C05 => {
-                if k < self.e05_quick.total {
+                let q = self.e05_quick.total;
+                let p = self.e05_prog.total;
+                if k < q {
                     self.e05_quick.case(k, seed)
+                } else if k < q + p {
+                    self.e05_prog.case(k - q, seed)
                 } else if k < en {
-                    self.e05_thorough.case(k - self.e05_quick.total, seed)
+                    self.e05_thorough.case(k - q - p, seed)
                 } else {
                     gen::gen05_random(mix(seed, "C05", k))
                 }
@@ -178,7 +184,7 @@ impl Engine for EnvEngine {
         let rnd = env_u64("VERIF_RANDOM_CASES");
         match self.prop {
             EnvProp::C05 => {
-                let en = self.e05_quick.total + if thorough { self.e05_thorough.total } else { 0 };
+                let en = self.e05_quick.total + self.e05_prog.total + if thorough { self.e05_thorough.total } else { 0 };
                 (en, rnd.unwrap_or(if thorough { 3_000_000 } else { 60_000 }))
             }
             EnvProp::C07 => (0, rnd.unwrap_or(if thorough { 1_000_000 } else { 60_000 })),
@@ -220,7 +226,7 @@ impl Engine for EnvEngine {
     }
     fn rule(&self) -> String {
         match self.prop {
-            EnvProp::C05 => "enumerated tier: every logical tree with <=2 operators from {!,||,&&,?:} x every assignment of the 9 atom kinds {truthy,falsy,failing}x{callback,literal,variable}+unbound to its leaves (thorough adds every tree with <=3 operators over the 4 callback/unbound kinds); concrete values, failure classes and chain rendering drawn per case from the seed; random tier: trees to depth 5 incl. match, bool() and macro predicates. A case is distinct by hash(operator skeleton, outcome kind, call-history digest) and non-trivial when at least one rare-condition probe of the reference evaluator fired (short-circuit over a possibly failing operand, failure absorbed, non-bool condition, ...) or a callback event was recorded".into(),
+            EnvProp::C05 => "enumerated tier: every logical tree with <=2 operators from {!,||,&&,?:} x every assignment of the 9 atom kinds {truthy,falsy,failing}x{callback,literal,variable}+unbound to its leaves, and again over the 6 kinds {truthy, falsy, failing stored program referenced by name; truthy, failing callback; unbound} (thorough adds every tree with <=3 operators over the 4 callback/unbound kinds); concrete values, failure classes and chain rendering drawn per case from the seed; random tier: trees to depth 5 incl. match, bool() and macro predicates. A case is distinct by hash(operator skeleton, outcome kind, call-history digest) and non-trivial when at least one rare-condition probe of the reference evaluator fired (short-circuit over a possibly failing operand, failure absorbed, non-bool condition, ...) or a callback event was recorded".into(),
             EnvProp::C07 => "random tier: macro kind x list source (literal, bound, callback-returned, computed list literal) x length 0..64 x body form (logging callback, loop variable, outer variable, stored program, nested macro re-using the name) with scripted failures placed on the first / deciding / after-deciding / last element; maps run under 3 simulator-chosen hash-key sets. Distinct by hash(skeleton, outcome kind, call-history digest); non-trivial when a probe fired or a callback event was recorded".into(),
             EnvProp::C08 => "enumerated tier: has(path) for depth 0..4 x every configuration of the bound tree (present, null leaf, key missing at each level, root unbound, non-map at each level, failing root, callback root) x every member/index syntax mask x 7 placements; coalesce for every vector of argument kinds {present,null,absent,failing}^n, n=0..5 x 7 placements; random tier: nested has/coalesce, JSON-bound trees. Distinct by hash(skeleton, outcome kind, call-history digest); non-trivial when a probe fired or a callback event was recorded".into(),
         }
